@@ -139,7 +139,7 @@ var c07AssertReasons = map[string]struct {
 
 func c07(c *core.Check) {
 	p := c.Prog
-	c.Explain = "Structural necessary conditions of crash-freedom for every function statically reachable from the parse entry points (CSS tokenizer and parsers, selector parser, validators, expanders and descriptor parsers through their dispatch tables, page/media parsers, SVG attribute/path/transform parsers, URL and HTML attribute readers): (R1) every fixed-position read of a variable-length value (constant index, constant slice bound, len-c, v-c) is length-guarded — by construction, by path-condition reachability under the scenarios len == n, or by a parameter precondition established at every call site, with a per-function table of the reads whose safety is an invariant this domain cannot express; (R2) no explicit panic outside a reasoned table; (R3) no unchecked type assertion outside a reasoned table, and the HasVar dependency resolveVar relies on; (R4) no integer division or modulo by a possibly zero divisor; (R5) the dispatch tables are total and validators/expanders are only entered with a non-empty token list. Variable indices in general, nil dereferences, stack depth and termination are not decided. Also decided: (R6) the guard contract of hasSetsOrMore, on which the indexed reads of the SVG path interpreter rest."
+	c.Explain = "Structural necessary conditions of crash-freedom for every function statically reachable from the parse entry points (CSS tokenizer and parsers, selector parser, validators, expanders and descriptor parsers through their dispatch tables, page/media parsers, SVG attribute/path/transform parsers, URL and HTML attribute readers): (R1) every fixed-position read of a variable-length value (constant index, constant slice bound, len-c, v-c) is length-guarded — by construction, by path-condition reachability under the scenarios len == n, or by a parameter precondition established at every call site, with a per-function table of the reads whose safety is an invariant this domain cannot express; (R2) no explicit panic outside a reasoned table; (R3) no unchecked type assertion outside a reasoned table, and the HasVar dependency resolveVar relies on; (R4) no integer division or modulo by a possibly zero divisor; (R5) the dispatch tables are total and validators/expanders are only entered with a non-empty token list. Variable indices in general, nil dereferences, stack depth and termination are not decided. Also decided: (R6) the guard contract of hasSetsOrMore, on which the indexed reads of the SVG path interpreter rest. Also decided: (R9) a position compared with the length of a buffer before one read is compared before every read at that position in the same function; (R10) the recursive descent of the tokenizer is bounded by a depth counter."
 	c.Assume = []string{"functions reached only through interface calls are resolved by class hierarchy analysis", "standard-library postconditions used: strings.Split* return at least one element; regexp Find*Submatch return nil or 1+NumSubexp elements"}
 
 	scope, roots := c07Scope(p)
